@@ -31,7 +31,7 @@ void *__real_malloc(size_t);
 void *__real_calloc(size_t, size_t);
 void *__real_realloc(void *, size_t);
 void __real_free(void *);
-extern int psv_env_threads, psv_affinity_fails;
+extern int psv_env_threads, psv_affinity_fails, psv_ncpus;
 }
 
 using namespace psv;
@@ -702,6 +702,12 @@ FitProblem make_fit(const Json &d) {
 		if (sparse > 0) np = std::max(np, 2 * nc + 2);
 		std::vector<double> c((size_t)np);
 		for (int j = 0; j < np; j++) c[(size_t)j] = (np == 1) ? 0.5 : (double)j / (np - 1) * 0.98 + 0.01;
+		// data that do not reach the ends of the knot range of the monotonic dimension: the outer
+		// basis functions see no data and are determined by the penalty alone
+		if (i == p.monodim && d.has("cover_hi")) {
+			double lo = d.getd("cover_lo", 0.0), hi = d.getd("cover_hi", 1.0);
+			for (auto &v : c) v = lo + (hi - lo) * v;
+		}
 		p.coords.push_back(c);
 	}
 	p.smoothing.assign(1, smooth);
@@ -923,6 +929,14 @@ struct SchedHarness : Harness {
 			}
 			// (not on sparse grids: the penalty that keeps those full rank shrinks like 1/h^(2*porder))
 			if (!sparse && gen.chance(0.25)) prob["axis_scale"] = Json(gen.chance(0.5) ? 1e3 : 1e6);
+			{
+				// (own stream; only with a penalty in every dimension, which keeps the uncovered part determined)
+				Rng cov(runseed, "cover");
+				if (!sparse && smooth >= 1e-2 && !prob.has("smooth_vec") && !prob.has("axis_scale") && cov.chance(0.2)) {
+					prob["cover_hi"] = Json(0.5 + 0.4 * cov.unit());
+					prob["cover_lo"] = Json(cov.chance(0.3) ? 0.3 * cov.unit() : 0.0);
+				}
+			}
 			if (ndim >= 2 && gen.chance(0.3)) {
 				Json o2 = Json::array(), nc2 = Json::array(), np2 = Json::array();
 				for (int i = 0; i < ndim; i++) { o2.push(o[(size_t)0]); nc2.push(nc[(size_t)0]); np2.push(np[(size_t)0]); }
@@ -934,6 +948,13 @@ struct SchedHarness : Harness {
 		plan["problem"] = prob;
 		plan["workers"] = Json(workers);
 		plan["affinity_fails"] = Json(knob.chance(0.1));
+		{
+			// CPUs of the simulated machine (own stream: older plans keep their other fields). Binding a
+			// thread to a CPU the machine does not have fails, as it does on a real one.
+			Rng cpus(runseed, "cpus");
+			static const int nc[] = {1, 2, 4, 8, 16};
+			plan["ncpus"] = Json(cpus.chance(0.5) ? 0 : nc[cpus.below(5)]);
+		}
 		plan["schedule"] = gen_sched(knob, workers, est_len);
 		plan["cross_workers"] = Json(depth == "fit" && knob.chance(0.25));
 		return plan;
@@ -983,6 +1004,7 @@ struct SchedHarness : Harness {
 		G.ctx = &ctx; G.workers = workers; G.prop = prop;
 		psv_env_threads = workers;
 		psv_affinity_fails = plan.getb("affinity_fails") ? 1 : 0;
+		psv_ncpus = (int)plan.geti("ncpus", 0);
 		Race::enable(true);
 		ctx.crumb("exec|%s|workers=%d", depth.c_str(), workers);
 		ctx.log.ev("plan depth=%s workers=%d policy=%s", depth.c_str(), workers, sc.policy.c_str());
@@ -1304,6 +1326,7 @@ struct SchedHarness : Harness {
 		if (plan["problem"].has("n") && plan["problem"].geti("n") > 1) { Json c = plan; c["problem"]["n"] = Json(plan["problem"].geti("n") - 1); out.push_back(c); }
 		if (plan["problem"].geti("extra") > 0) { Json c = plan; c["problem"]["extra"] = Json(0); out.push_back(c); }
 		if (plan.getb("affinity_fails")) { Json c = plan; c["affinity_fails"] = Json(false); out.push_back(c); }
+		if (plan.geti("ncpus", 0) > 0) { Json c = plan; c["ncpus"] = Json(0); out.push_back(c); }
 		if (plan.getb("cross_workers")) { Json c = plan; c["cross_workers"] = Json(false); out.push_back(c); }
 		// 3. explicit schedule: truncate, drop spurious wake-ups, remove preemptions
 		if (plan["schedule"].gets("policy") == "explicit") {
